@@ -2,10 +2,17 @@
    <t><h><l><m><d> N (<tcp-res> <http-res> <tls-res>)* F <frame hex>*
    res := E | group(,group)*    group := - | <sig hex>~<match on>~<match off>
    result: packets joined by ';', 8 groups joined by ',', group '-' or <sig hex>~<match> ; CTORERR
-   SPEC column: the same per packet, '*' where the property gives no verdict for that packet *)
-From Coq Require Import List NArith Bool.
+   SPEC column: the same per packet, '*' where the property gives no verdict for that packet
+   kind K (concrete composition, HTTP must be disabled):  <t>0<l><m><d> K <cap> <t ms>:<frame hex> ...
+   MODEL: Model/Unified.v unified_run over the packet-level TCP analyzer model (Model/TcpAnalyzer.v with the MTU table
+          of Gen/Mtu.v, tracker capacity <cap>, <t ms> = clock reading of the packet) and the stateless TLS path
+          (Model/AnalyzerReports.v tcp_ustep, tls_ufn); packets joined by ';', the 8 groups by '^':
+          '-' | signature text | <mtu>~<M+link hex|X|D> | uptime token | TLS token.
+   SPEC : spec_run_enabled over the same concrete analyzers, '*' where an enabled analyzer rejects the packet. *)
+From Coq Require Import List NArith ZArith Bool.
 From Coq Require Import Strings.Byte.
-From HN Require Import Base.Bytes Model.Unified Spec.UnifiedSpec.
+From HN Require Import Base.Bytes Model.Unified Spec.UnifiedSpec Model.AnalyzerReports Gen.Mtu.
+From HN Require Model.TcpAnalyzer.
 Import ListNotations.
 
 Definition parse_group (t : bytes) : option (option grp) :=
@@ -56,9 +63,51 @@ Fixpoint all_some {A} (l : list (option A)) : option (list A) :=
   | Some x :: r => option_map (cons x) (all_some r)
   | None :: _ => None end.
 
+(* ---- kind K ---- *)
+Fixpoint parse_kevents (ts : list bytes) : option (list TcpAnalyzer.tcp_event) :=
+  match ts with
+  | [] => Some []
+  | t :: r =>
+      match fsplit_on ":"%byte t, parse_kevents r with
+      | [tm; h], Some es =>
+          match read_N tm, (if bytes_eqb h (bs "-") then Some [] else read_hex h) with
+          | Some t', Some f => Some ((f, Z.of_N t') :: es)
+          | _, _ => None end
+      | _, _ => None end
+  end.
+Definition show_k_group (ig : nat * shown) : bytes :=
+  match snd ig with
+  | None => bs "-"
+  | Some (sg, m) => if Nat.eqb (fst ig) 2 then sg ++ "~"%byte :: m else sg
+  end.
+Definition show_k_packet (gs : list shown) : bytes := join (bs "^") (map show_k_group (combine (seq 0 (length gs)) gs)).
+Definition no_http (s : unit) (e : TcpAnalyzer.tcp_event) : unit * pres := (s, Some (absent 2)).
+(* the standalone analyzers of the ENABLED protocols on the same trace (= Proofs/UnifiedProofs.v spec_run_enabled) *)
+Fixpoint k_spec_run (cf : cfg) (cap : N) (st : TcpAnalyzer.tcp_state) (es : list TcpAnalyzer.tcp_event) : list (option (list shown)) :=
+  match es with
+  | [] => []
+  | e :: r => spec_packet cf (snd (tcp_ustep mtu_table cap st e)) (Some (absent 2)) (tls_ufn e)
+              :: k_spec_run cf cap (if tcp_en cf then fst (tcp_ustep mtu_table cap st e) else st) r
+  end.
+Definition run_k (cf : cfg) (cap : N) (es : list TcpAnalyzer.tcp_event) : bytes :=
+  if http_en cf then bs "BADCASE" else
+  if negb (ctor_ok cf) then out3 (bs "CTORERR") (bs "CTORERR") false else
+  let model := unified_run TcpAnalyzer.tcp_event TcpAnalyzer.tcp_state unit (tcp_ustep mtu_table cap) no_http tls_ufn cf ([], tt) es in
+  let spec := k_spec_run cf cap [] es in
+  out3 (join (bs ";") (map show_k_packet model))
+       (join (bs ";") (map (fun o => match o with Some gs => show_k_packet gs | None => bs "*" end) spec)) false.
+
 Definition run_line (l : bytes) : bytes :=
   match fsplit_on sp l with
   | c :: n :: rest =>
+      if bytes_eqb n (bs "K") then
+        match parse_cfg c, rest with
+        | Some cf, capt :: evs =>
+            match read_N capt, parse_kevents evs with
+            | Some cap, Some es => run_k cf cap es
+            | _, _ => bs "BADCASE" end
+        | _, _ => bs "BADCASE" end
+      else
       match parse_cfg c, parse_packets (S (length rest)) rest with
       | Some cf, Some ps =>
           if negb (bytes_eqb n (bs "N")) then bs "BADCASE" else
@@ -74,6 +123,12 @@ Definition run_line (l : bytes) : bytes :=
 Example run_line_ex :
   run_line (bs "10111 N aa~M01~D,-,-,-,- E 00~X~X F 00")
   = bs "aa~M01,-,-,-,-,-,-,00~X	aa~M01,-,-,-,-,-,-,00~X	0".
+Proof. vm_compute. reflexivity. Qed.
+
+(* kind K: the first two packets of a generated trace, TCP + TLS enabled, matcher on *)
+Example run_line_ex_K :
+  run_line (bs "10111 K 8 1000500:02000000000102000000000208004500003c12344000401100000a0100225db8d8224e410050194727c800000000a002faf000000000020405b40402080a000b09950000000001030307 1000344:02000000000102000000000208004500003c12344000400600000a0100225db8d8224e410050194727c800000000a002faf000000000020405b40402080a000b09950000000001030307")
+  = bs "-^-^-^-^-^-^-^-;4:64+0:0:1460:mss*44,7:mss,sok,ts,nop,ws:df,id+:0^-^1500~M+45746865726e6574206f72206d6f64656d^-^-^-^-^-	*;4:64+0:0:1460:mss*44,7:mss,sok,ts,nop,ws:df,id+:0^-^1500~M+45746865726e6574206f72206d6f64656d^-^-^-^-^-	0".
 Proof. vm_compute. reflexivity. Qed.
 
 Require Extraction.
